@@ -1067,8 +1067,6 @@ int liberasurecode_get_fragment_metadata(char *fragment,
                 bswap_32(fragment_metadata->frag_backend_metadata_size);
             fragment_metadata->orig_data_size =
                 bswap_64(fragment_metadata->orig_data_size);
-            fragment_metadata->chksum_type =
-                bswap_32(fragment_metadata->chksum_type);
             for (int i = 0; i < LIBERASURECODE_MAX_CHECKSUM_LEN; i++) {
                 fragment_metadata->chksum[i] =
                     bswap_32(fragment_metadata->chksum[i]);
